@@ -15,7 +15,7 @@
 //! * a trap (host error, failed auth, `panic_with_error!`) is divergence: `assume(false)`.
 #![allow(dead_code, unused_variables, static_mut_refs, clippy::all)]
 extern crate self as soroban_sdk;
-pub use soroban_sdk_macros::{contract, contractclient, contracterror, contractimpl, contracttype};
+pub use soroban_sdk_macros::{bytes, bytesn, contract, contractclient, contracterror, contractimpl, contracttype};
 
 pub mod shim;
 mod harness_macros;
